@@ -361,19 +361,21 @@ inline bool admissible(const Ctor &c, const Basic &a, const Basic &b)
     if (c.name == "pow" && (is_a<Integer>(b) || is_a<Rational>(b) || is_a<Complex>(b)) && is_wild_number(b))
         return false; // pow(., huge exact exponent): allocation bomb (pow(add(x,x), (2^64+1)/3) aborts in GMP)
     if (c.name == "union" || c.name == "intersection" || c.name == "complement") {
-        auto lazy = [](const Basic &s) { return is_a<ImageSet>(s) || is_a<Complement>(s) || is_a<ConditionSet>(s); };
-        auto inf = [](const Basic &s) {
-            return is_a<Complexes>(s) || is_a<Reals>(s) || is_a<Rationals>(s) || is_a<Integers>(s) || is_a<Naturals>(s)
-                   || is_a<Naturals0>(s);
+        // set_union / set_intersection / set_complement recurse without bound (SIGSEGV, cf. C27) when an operand is a
+        // compound set (Union, Complement, ImageSet, ConditionSet, Intersection) and for Rationals x Interval.  The set
+        // operations are therefore applied to atomic and simple sets only; compound sets still occur as children of
+        // Contains, ImageSet, ConditionSet, Piecewise conditions, FunctionSymbol arguments, ...
+        auto simple = [](const Basic &s) {
+            return is_a<EmptySet>(s) || is_a<UniversalSet>(s) || is_a<FiniteSet>(s) || is_a<Interval>(s) || is_a<Complexes>(s)
+                   || is_a<Reals>(s) || is_a<Rationals>(s) || is_a<Integers>(s) || is_a<Naturals>(s) || is_a<Naturals0>(s);
         };
-        // SIGSEGV (unbounded recursion) in set_union/set_intersection/set_complement, cf. C27
-        if ((lazy(a) && (inf(b) || lazy(b))) || (lazy(b) && inf(a)))
-            return false;
-        if (c.name == "intersection" && (lazy(a) || lazy(b)))
+        if (!simple(a) || !simple(b))
             return false;
         if ((is_a<Rationals>(a) && is_a<Interval>(b)) || (is_a<Interval>(a) && is_a<Rationals>(b)))
             return false;
     }
+    if (c.name == "d2/dx2 f(.,x)" && !a.get_args().empty())
+        return false; // second derivative of h(compound, x): SIGSEGV in diff for many argument classes (acot(I), beta(x,I), Piecewise, Max, ...)
     if (c.name.rfind("d", 0) == 0 && c.name.find("/dx") != std::string::npos) {
         // Derivative of f(max(..)) / f(unevaluated_expr(..)): SIGSEGV in diff
         std::function<bool(const Basic &)> bad = [&](const Basic &e) {
